@@ -120,8 +120,10 @@ class Notification:
             yield
         except Interrupt as err:
             if err is not wake_up:
+                # the subscriber may outlive the loop it subscribed in (the observer of
+                # a connective used again in a later simulation): ask the current one
                 assert (
-                    task is loop.activity
+                    task is __USIM_STATE__.loop.activity
                 ), 'Break points cannot be passed to other coroutines'
                 raise
         finally:
